@@ -172,6 +172,17 @@ Definition pm_graph (s : sx) : sx :=
   | None => sx_bad
   end.
 
+(* suite "graph.eq": `==` (impl PartialEq for Graph) between all pairs of
+   registers after the history; validates [g_eqb], not part of the property *)
+Definition pm_graph_eq (s : sx) : sx :=
+  match un_graph_case s with
+  | Some (n, ops) =>
+      let FO := graph_FO in
+      let '(w, iss, outs) := run_sym g_step (w_init 1 n) [] ops in
+      SL [SZ 0; sx_list (fun a => sx_list (fun b => sx_bool (g_eqb a b)) (w_regs w)) (w_regs w)]
+  | None => sx_bad
+  end.
+
 (* ---------------------------------------------------------------------- *)
 (* The property predicate on an observed result: the outputs are those of the
    set-based specification (node sets compared as sorted lists, a diff by its
